@@ -72,7 +72,7 @@ fn special_lat() -> BoxedStrategy<f64> {
 }
 
 fn seam_pos() -> BoxedStrategy<Pos> {
-  (-16i32..=16, special_lat(), -2i32..=2, -2i32..=2)
+  (prop_oneof![3 => -16i32..=16, 1 => -32i32..=32], special_lat(), -2i32..=2, -2i32..=2)
     .prop_map(|(k, lat, n1, n2)| Pos::new(nudge(k as f64 * (PI / 4.0), n1), nudge(lat, n2), "seam"))
     .boxed()
 }
@@ -101,8 +101,8 @@ pub fn depth_and_cell() -> BoxedStrategy<(u8, Cell)> {
 /// Lattice points: centre or a vertex of a cell of some depth, mapped to the sphere by the
 /// reference inverse projection and nudged by 0..2 ulps.
 fn lattice_pos() -> BoxedStrategy<Pos> {
-  (depth_and_cell(), 0usize..5, -2i32..=2, -2i32..=2)
-    .prop_map(|((d, c), which, n1, n2)| {
+  (depth_and_cell(), 0usize..5, -2i32..=2, -2i32..=2, prop_oneof![4 => Just(0i32), 1 => -4i32..=4])
+    .prop_map(|((d, c), which, n1, n2, turns)| {
       let n = 1i64 << d;
       let (xc, yc) = lat::cell_center(n, c);
       let (x, y) = match which {
@@ -113,6 +113,9 @@ fn lattice_pos() -> BoxedStrategy<Pos> {
         _ => (xc - 1, yc),
       };
       let (lon, la) = unproj_ref(x as f64 / n as f64, y as f64 / n as f64);
+      // the same border point seen from another turn (negative longitudes included): the crate's
+      // reduction of the longitude then goes through its other branch
+      let lon = lon + turns as f64 * TWO_PI;
       Pos::new(nudge(lon, n1), nudge(la, n2), "lattice")
     })
     .boxed()
@@ -133,7 +136,7 @@ fn pole_pos() -> BoxedStrategy<Pos> {
       let la = HALF_PI - (10.0f64).powf(-u);
       Pos::new(lon, if south { -la } else { la }, "pole")
     }),
-    1 => (prop::sample::select(vec![0.0f64, -0.0, f64::MIN_POSITIVE, 5e-324, -5e-324, 1e-300]), special_lat())
+    1 => (prop::sample::select(vec![0.0f64, -0.0, f64::MIN_POSITIVE, 5e-324, -5e-324, 1e-300, -4.4e-17, -1e-16, -2e-16, -3e-16, -3.9e-16, -5e-16, 1e-16]), special_lat())
       .prop_map(|(lon, la)| Pos::new(lon, la, "pole")),
   ]
   .boxed()
